@@ -18,7 +18,7 @@ PRE = {"C03": 0.1, "C04": 0.3, "C05": 0.15, "C06": 0.1, "C10": 0.05, "C11": 0.1,
 COUNT = {"quick": 1500, "thorough": 25000}
 # C03 / C04 / C05 are also judged on interleaved (Level B) executions: BMonitors.v check_C03b / C04b / C05b
 BCOUNT = {"quick": 500, "thorough": 8000}
-BPIDS = ("C03", "C04", "C05")
+BPIDS = ("C03", "C04", "C05", "C10")
 WHOLE_HISTORY = ("C03", "C04", "C05", "C11", "C17")
 
 
@@ -37,7 +37,18 @@ def gen(pid, tier, rng, n=None, poison=None):
         hist = histgen.gen_history(rng, u, nthreads=nt, length=rng.randint(4, 14), profile=PROFILES[pid], pre=pre, unw=unw)
         if not hist:
             hist = [(0, ("get",))]
-        scens.append(b.scen(hist=hist, pre=pre, unw=unw, meta={"roots": [b.desc[c] for c in u.roots], "nt": nt}))
+        probes = []
+        if pid == "C17":
+            # Debug formatting with a payload whose own Debug impl reports an error (what a failing sink does to the
+            # lock's impl): not in the model's vocabulary, judged directly: no blocking operation, hold table unchanged
+            tids = sorted({t for t, _ in hist})
+            for c in u.roots:
+                for l in b.locks_of[c][:3]:
+                    if rng.random() < 0.5:
+                        probes.append((rng.choice(tids), ("fmtfail", c, l)))
+            probes = probes[:6]
+        scens.append(b.scen(hist=hist, pre=pre, unw=unw, probes=probes,
+                            meta={"roots": [b.desc[c] for c in u.roots], "nt": nt}))
     if pid in BPIDS:
         bs = bprop.gen(pid, tier, rng, n=BCOUNT[tier] if full else max(1, n // 3))
         for s in bs:
@@ -49,6 +60,19 @@ def gen(pid, tier, rng, n=None, poison=None):
 def coq_expr(pid, s, r):
     if s.sched:
         return bprop.coq_expr(pid, s, r, "b")
+    if pid == "C17" and r.get("pobs"):
+        # probes: "(rc) [evs] before after" judged by the property's own clause
+        conj = []
+        for po in r["pobs"]:
+            rc, rest = po.split(") ", 1)
+            evs, rest = rest[1:].split("] [", 1)
+            before, after = ("[" + rest).split("] [", 1)
+            conj.append(f"(negb (rcode_eqb ({rc.strip('(')}) RBlockedC) && nonblocking_evs [{evs}] && "
+                        f"holds_sim [{after} ({before}]))")
+        P = " && ".join(conj)
+        base = f"check_{pid} ({s.coq(*r['adr'])}) {common.obs_list(r)}"
+        return (f"(let v := {base} in mkv (v_strict v) (v_proj v) (v_mon v && ({P})) (v_monk v && ({P})), "
+                f"wf_histb ({s.coq(*r['adr'])}))")
     if pid in WHOLE_HISTORY:
         # also evaluate the decidable hypotheses of the whole-history theorem (Pf_Hist.v) on this scenario
         hyp = f"wf_histb ({s.coq(*r['adr'])})" + (f" && wf4b ({s.coq(*r['adr'])})" if pid == "C04" else "")
